@@ -1,11 +1,11 @@
 SPECIFICATION Spec
 CONSTANTS
-  Contents <- AVRows
+  Contents <- Small6
   BoundModes <- BM2
-  Schema = "AV"
-  MaxDepth = 2
-  Rich = FALSE
-  EmitMin = 0
+  Schema = "AB"
+  MaxDepth = 6
+  Rich = TRUE
+  EmitMin = 6
   Emit = TRUE
 INVARIANT ExecMatches
 INVARIANT DenMatches
